@@ -72,6 +72,10 @@ def make_operand(kind, system, rows, momentum, spelling="generic", extra=False, 
     if dtype == "i64":
         rows = [tuple(float(round(x)) for x in r) for r in rows]
         dt = numpy.int64
+    if dtype == "i64s" and kind in build.NP_LAYOUTS and len(system) == 3:
+        # int64 spatial columns next to a float64 temporal one (a fractional time must survive every operation)
+        rows = [tuple(float(round(x)) for x in r[:3]) + (r[3],) for r in rows]
+        dt = [numpy.int64, numpy.int64, numpy.int64, numpy.float64]
     if dtype == "be" and kind in build.NP_LAYOUTS + build.NP_VIEW_LAYOUTS:
         dt = numpy.dtype(">f8")  # non-native byte order (files written on another architecture); Awkward rejects such buffers
     if kind == "record":
